@@ -22,6 +22,9 @@ o["Replace"]["/verif/engine/cmd/vcheck/zz_prop.go"]=w+"/zz_prop.go"
 json.dump(o,open(w+"/ov/overlay.json","w"))
 PY
   go build -tags verif -overlay "$W/ov/overlay.json" -o "$W/vcheck" ./cmd/vcheck || echo "warning: props/$p does not build"
+  if [ -e "props/$p/.racepass" ]; then
+    go build -race -tags verif -overlay "$W/ov/overlay.json" -o "$W/vcheck" ./cmd/vcheck || echo "warning: props/$p does not build with -race"
+  fi
 done
 rm -rf "$W"
 echo setup ok
